@@ -195,6 +195,8 @@ func runC13(c *Check) {
 	ruleContextProvenance(c, p, distinct, depth)
 	c.Doc("C13-R8", "EO: every loop that waits on a one-shot timer (time.NewTimer) re-arms that timer on every path that leads back to the wait; a path without Reset parks the loop for good (a ticker needs no re-arming).")
 	ruleTimersRearmed(c, p, "C13-R8")
+	c.Doc("C13-R9", "GA: every unbounded loop (no collection or counter bounds it) in the block package whose body calls another layer (executor, store, DA, sequencer) passes a context check on every cycle: a backlog worked off inside one call must not outlive the stop request.")
+	ruleUnboundedLoopsCheckContext(c, p, "C13-R9")
 	c.Doc("C13-R7", "EO (pairing): every mutex acquisition in the node's packages and the sequencing layer is released on every path to a return (a leaked lock parks the loops that share it in Lock(), which no stop request can interrupt).")
 	ruleLockPairing(c, "C13-R7", []*Prog{p, c.Mod(ModSingle)})
 }
@@ -977,4 +979,145 @@ func ruleTimersRearmed(c *Check, p *Prog, rule string) {
 	if n == 0 {
 		c.OK(rule, "block ⟂ one-shot-timers", "", "", "no loop of the block package waits on a one-shot timer outside the aggregation loops' own rule", false)
 	}
+}
+
+// ruleUnboundedLoopsCheckContext (C13-R9).
+func ruleUnboundedLoopsCheckContext(c *Check, p *Prog, rule string) {
+	layer := func(name string) bool {
+		for _, pre := range []string{"(" + rootPath + "/pkg/store.Store).", "(" + rootPath + "/core/execution.Executor).", "(" + rootPath + "/core/sequencer.Sequencer).", "(" + rootPath + "/core/da.DA)."} {
+			if strings.HasPrefix(name, pre) {
+				return true
+			}
+		}
+		return false
+	}
+	n := 0
+	for _, fn := range p.Funcs {
+		pk := fnPkg(fn)
+		if pk == nil || pk.Pkg.Path() != rootPath+"/block" || fn.Blocks == nil || fn.Parent() != nil {
+			continue
+		}
+		if fn.Origin() != nil && fn.Origin() != fn {
+			continue
+		}
+		hasCtx := false
+		for _, prm := range fn.Params {
+			if prm.Type().String() == "context.Context" {
+				hasCtx = true
+			}
+		}
+		if !hasCtx {
+			continue
+		}
+		var g *Graph
+		for _, hb := range fn.Blocks {
+			isHdr := false
+			for _, pr := range hb.Preds {
+				if hb.Dominates(pr) {
+					isHdr = true
+				}
+			}
+			if !isHdr {
+				continue
+			}
+			// bounded by a collection or a counter? the header's own exit test mentions a phi of
+			// the header, a range iterator, or a channel receive
+			bounded := false
+			if ifi, ok := hb.Instrs[len(hb.Instrs)-1].(*ssa.If); ok {
+				var uses func(v ssa.Value, d int) bool
+				uses = func(v ssa.Value, d int) bool {
+					if d > 3 {
+						return false
+					}
+					switch x := v.(type) {
+					case *ssa.Phi:
+						return x.Block() == hb
+					case *ssa.BinOp:
+						return uses(x.X, d+1) || uses(x.Y, d+1)
+					case *ssa.Extract:
+						_, isNext := x.Tuple.(*ssa.Next)
+						if u, isRecv := x.Tuple.(*ssa.UnOp); isRecv && u.CommaOk {
+							return true
+						}
+						return isNext
+					case *ssa.UnOp:
+						return uses(x.X, d+1)
+					}
+					return false
+				}
+				bounded = uses(ifi.Cond, 0)
+			}
+			if bounded {
+				continue
+			}
+			// does the loop body call another layer (directly, or through the repo functions it calls)?
+			if g == nil {
+				g = BuildECFG(p, fn, ExpandOpts{MaxDepth: 2, Stop: func(f *ssa.Function) bool { return isSubmitterFn(f) }})
+			}
+			head := g.headNode(g.RootCtx, hb)
+			if head == nil {
+				continue
+			}
+			// nodes on some cycle through the header
+			fwd := g.Reachable([]*Node{head}, nil)
+			onCycle := func(x *Node) bool {
+				if !fwd[x] {
+					return false
+				}
+				return g.PathAvoiding([]*Node{x}, func(y *Node) bool { return y == head }, nil) != nil
+			}
+			callsLayer := false
+			for x := range fwd {
+				if cc := CallCommonOf(x); cc != nil && cc.IsInvoke() && layer(commonName(cc)) && onCycle(x) {
+					callsLayer = true
+					break
+				}
+			}
+			// loops that wait (blocking select) are the worker loops of C13-R4
+			waits := false
+			for _, b := range fn.Blocks {
+				if !hb.Dominates(b) {
+					continue
+				}
+				for _, in := range b.Instrs {
+					if sl, ok := in.(*ssa.Select); ok && sl.Blocking {
+						waits = true
+					}
+				}
+			}
+			if !callsLayer || waits {
+				continue
+			}
+			c.NoteGraph(g)
+			n++
+			isCheck := func(x *Node) bool {
+				if sl, ok := x.In.(*ssa.Select); ok {
+					for _, st := range sl.States {
+						t := TermOf(st.Chan, x.Ctx)
+						if t.Op == "invoke" && t.Name == "(context.Context).Done" {
+							return true
+						}
+					}
+				}
+				cn := CallName(x)
+				return cn == "(context.Context).Err" || (x.Kind == NInstr && func() bool {
+					u, ok := x.In.(*ssa.UnOp)
+					if !ok || u.Op != token.ARROW {
+						return false
+					}
+					t := TermOf(u.X, x.Ctx)
+					return t.Op == "invoke" && t.Name == "(context.Context).Done"
+				}())
+			}
+			inst := fnShort(fn) + " ⟂ unbounded loop @" + p.Pos(hb.Instrs[0].Pos()) + " checks the context each cycle"
+			inst = fnShort(fn) + " ⟂ unbounded-loop-checks-context"
+			c.Decide(rule, inst, fnName(fn), p.InstrPos(hb.Instrs[len(hb.Instrs)-1]), "every cycle of the loop passes a context check",
+				"a cycle of an unbounded loop that calls the executor / store / DA / sequencer passes no context check: a backlog worked off inside one call (e.g. catching up over many cached blocks) ignores the stop request until it is finished", g,
+				g.PathAvoiding(head.Succ, func(y *Node) bool { return y == head }, isCheck))
+		}
+	}
+	if n == 0 {
+		c.Unk(rule, "unbounded-loops", "", "", "anchor lost: no unbounded loop calling another layer found in the block package")
+	}
+	c.MinInstances(rule, 1)
 }
